@@ -365,6 +365,22 @@ def check_initialize(rep, f, F):
     each = [g for g in call["guards"] if isinstance(g[0], tuple) and g[0][0] == "each"]
     if not each:
         rep.broken("R1.3", "Map_Sphere::Initialize: AddElem is not called from a loop over all sub-beads (guards %s)" % guard_strs(fo, call["guards"]))
+    # every listed sub-bead becomes an element: inside the loop the call may only be preceded by rejections (throws), never skipped
+    ix = max(i_ for i_, g in enumerate(call["guards"]) if isinstance(g[0], tuple) and g[0][0] == "each") if each else -1
+    lidk = call["guards"][ix][0][1] if each else None
+    thr_conds = set()
+    for t_ in fo.events:
+        if t_["kind"] != "throw":
+            continue
+        te = [i_ for i_, g in enumerate(t_["guards"]) if isinstance(g[0], tuple) and g[0][0] == "each" and g[0][1] == lidk]
+        if te:
+            for c_, pol_, _n in t_["guards"][te[-1] + 1:]:
+                if pol_:
+                    thr_conds.add(fo.cond_str(c_))
+    skipped = [("" if pol_ else "!") + fo.cond_str(c_) for c_, pol_, _n in call["guards"][ix + 1:] if not (not pol_ and fo.cond_str(c_) in thr_conds)] if each else []
+    rep.check(bool(each) and not skipped, "R1.3", "every-subbead", "AddElem runs for every listed sub-bead (the loop body only rejects, never skips)",
+              "Map_Sphere::Initialize adds a sub-bead only if %s: a listed atom that is skipped is missing from the mass sum, from the periodic-image reference (first atom) and from "
+              "the half-box test" % " and ".join(x[:160] for x in skipped), f.loc(call["node"]), sample=True)
     w_arg, f_arg = call["args"][1], call["args"][2]
     if isinstance(w_arg, (Matrix, tuple)) or isinstance(f_arg, (Matrix, tuple)):
         rep.broken("R1.3", "Map_Sphere::Initialize: AddElem arguments do not fold to scalars")
